@@ -177,6 +177,17 @@ class Corr:
             if got == "bad-op":
                 self.mismatches.append({"op": info, "impl": "", "model": "bad-op", "line": line[:300]})
                 continue
+            if kind == "seq":  # outputs of a call / in-place update / call sequence, '|' separated
+                parts = got.split("|")
+                if len(parts) != len(real):
+                    self.mismatches.append({"op": info, "impl": [r.tolist() for r in real], "model": got[:300], "line": line[:300], "why": "number of outputs"})
+                    continue
+                for j, (r, t) in enumerate(zip(real, parts)):
+                    m = [float(Fraction(u)) for u in t.split(",")] if t != "-" else []
+                    if len(m) != r.size or np.any(np.abs(np.asarray(m) - r.astype(float)) > 1e-9 * (1 + scale)):
+                        self.mismatches.append({"op": info, "output": j, "impl": r.tolist(), "model": m, "line": line[:400]})
+                        break
+                continue
             try:
                 m = [float(Fraction(t)) for t in got.split(",")] if got != "-" else []
             except ValueError:
@@ -266,6 +277,57 @@ def correspondence(c, corr):
     t = [1e-10, 0.125, 1 / 64][c["k"] % 3]
     cv = np.array([0.0, 1.0, 0.5, t, 1 - t, t / 2, 1 - t / 2] + [float(p) for p in ps[:4]])
     corr.add(f"threshold {C.rat(t)} {R(cv)}", "exact", real(U.threshold_cdf_vals, cv, t), 0.0, f"{tag} threshold_cdf_vals")
+
+
+def seq_correspondence(c, corr):
+    """tie of the sequence model (Model.Stats.runSeq, Props.C16.seq_*): the same call / in-place update / call sequence on
+    the real functions (same array objects, updated in place) and in the driver (a store of values).  Only operations
+    without a float discontinuity are used: the step ecdf, IECDF at probabilities whose index is a half-integer, and
+    sort_array_like_another_one with a tie-free reference."""
+    from ibicus.utils import _math_utils as M
+    from ibicus.utils import _utils as U
+
+    x, y, y2, vals = c["x"].copy(), c["y"].copy(), c["y2"].copy(), c["vals"].copy()
+    ny = y.size
+    ps = np.array([0.0, 1.0] + ([(j + 0.5) / (ny - 1) for j in range(ny - 1)] if ny >= 2 else [0.5]))
+    tiefree = np.unique(y2).size == y2.size
+
+    def R(a):
+        return C.rlist(np.asarray(a, dtype=np.float64))
+
+    store0 = [x.copy(), y.copy(), vals.copy(), ps.copy(), y2.copy()]
+    ops, outs = [], []
+
+    def calls():
+        ops.append("ecdf:step_function:0:2")
+        outs.append(quiet(M.ecdf, x, vals, "step_function"))
+        ops.append("iecdf:inverted_cdf:1:3")
+        outs.append(quiet(M.iecdf, y, ps, "inverted_cdf"))
+        if tiefree:
+            ops.append("sortlike:0:4")
+            outs.append(quiet(U.sort_array_like_another_one, x, y2))
+        ops.append("sortlike:1:1")
+        outs.append(quiet(U.sort_array_like_another_one, y, y))
+
+    def upd(i, a):
+        if a.dtype.kind == "i":
+            a += 3
+            a[0] -= 7
+        else:
+            a *= 2
+            a -= a.dtype.type(2.5 * c["scale"])
+            a[a.size // 2] = a[0] + a.dtype.type(0.75 * c["scale"])
+        ops.append(f"upd:{i}:{R(a)}")
+
+    calls()
+    upd(0, x)
+    calls()
+    upd(1, y)
+    upd(4, y2)
+    tiefree = np.unique(y2).size == y2.size
+    calls()
+    scale = float(np.abs(np.concatenate([np.asarray(o, dtype=float) for o in outs])).max())
+    corr.add(f"seq {'|'.join(R(a) for a in store0)} {'|'.join(ops)}", "seq", outs, scale, f"case {c['k']} call / in-place update / call sequence")
 
 
 # ------------------------------------------------------------------ the property's oracle on the real functions
@@ -393,7 +455,7 @@ def oracle(c, problems, stats):
     # ---- the oracle laws the histogram theorems carry, on numpy's actual bins
     edges, counts = hist_of(x)
     if xmin < xmax:
-        if not (edges.size == counts.size + 1 and np.all(np.diff(edges) > 0) and counts.sum() > 0 and edges[-1] == xmax and edges[0] <= xmin):
+        if not (edges.size == counts.size + 1 and np.all(np.diff(edges) > 0) and counts.sum() > 0 and edges[-1] == xmax and edges[0] == xmin):
             bad("np.histogram(bins='auto') bins violate the oracle laws of Props.C16.ecdfHist_* on a non-constant sample", {"law": "hist_oracle"}, function="np.histogram",
                 edges=edges.tolist(), counts=counts.tolist())
     stats["hist_constant" if xmin == xmax else "hist_nonconstant"] += 1
@@ -616,10 +678,15 @@ def run(tier, res, force_search=False):
         "numpy's np.sort/argsort/quantile/interp/linspace/histogram, statsmodels' ECDF, scipy's rv_histogram/rankdata are modelled (Model/Stats.lean), not verified; "
         "np.argsort is not stable: rank-based statements carry a tie-free hypothesis",
         "np.histogram(bins='auto') bin edges and counts are an oracle argument of the histogram ecdf; the laws the theorems use (increasing edges, positive total, last edge = max x, "
-        "first edge <= min x) are re-checked on numpy's actual bins on every run",
+        "first edge = min x) are re-checked on numpy's actual bins on every run",
         "float rounding is not modelled; at discontinuities of the exact map (floor / discrete virtual index at an integer, np.interp at a tied computed knot) either neighbour is accepted and counted (ties_accepted)",
     ]
-    res.assumptions = ["purity / aliasing / call-sequence behaviour of the helpers (inputs unchanged, result independent of shared memory) is checked by the oracle on the real functions only: the Lean model is value-level and cannot exhibit it",
+    res.assumptions = ["call sequences with in-place updates: the specification is Model.Stats.runSeq (a store of values, calls read it, only `update` writes it; Props.C16.seq_call_leaves_store, "
+                       "seq_call_update_call, seq_values_only, sortLike_self) and it is tied to the real functions by the call / update / call correspondence (driver op `seq`); "
+                       "WHY a real helper could deviate (a module-level cache, an in-place sort of an argument, numpy views sharing memory) is runtime behaviour the value-level model cannot exhibit: "
+                       "inputs-unchanged (byte comparison), shared-memory arguments and stale-state checks are decided by the oracle on the real code only",
+                       "result dtype / precision of mixed-dtype arguments (float32, int64 source with a float64 target) and the float evaluation of k/n at the end points for each n are decided by the oracle on the real code only: "
+                       "the model is exact rational arithmetic, where n/n = 1 for every n (Props.C16.ecdf_step_at_max, ecdf_below_min, iecdf_zero/one, qmap_at_max, qmapHist_at_max)",
                        "samples are finite floats; probabilities lie in [0,1]", "the target sample y is float64 (source / values may be float32 or int64)", "sample size >= 2 for the distribution-function laws (size 1 is stated separately: Props.C16.ecdf_size_one_*, iecdf_size_one)",
                        "tie-free source for the equal-size reproduction law; tie-free reference for the exact comparison of sort_array_like_another_one"]
 
@@ -641,6 +708,7 @@ def run(tier, res, force_search=False):
         oracle_inplace_sequences(c, problems, stats)
         snap = {a: c[a].tobytes() for a in ("x", "y", "y2", "vals", "ps")}
         correspondence(c, corr)
+        seq_correspondence(c, corr)
         oracle(c, problems, stats)
         for a, b in snap.items():
             if c[a].tobytes() != b:
